@@ -313,6 +313,17 @@ func (x *Exec) havocVal(t types.Type, st *State, r string, name string) Val {
 		v[i] = Cell{T: x.vc.S.freshConst("h_"+name, ci.kind == kBool), B: ci.kind == kBool}
 	}
 	x.typeFacts(r, t, v, st)
+	// a ghost object no callee knows about (the parsed request) is never what a call returns
+	for _, g := range x.vc.stable {
+		if g == "REQ" {
+			for i, ci := range l.cells {
+				if ci.kind == kRef {
+					x.vc.S.raw("(assert " + not(eq(v[i].T, "REQ")) + ")")
+					x.vc.markDistinct(v[i].T, "REQ")
+				}
+			}
+		}
+	}
 	return v
 }
 
